@@ -28,6 +28,8 @@ CLAIMED = {
    text="Every expect of the generated code is a transition to a panic flag in the receiver machine and TLC checks it is unreachable for every declaration and input in bounds (the presence check plus the single early return make it so); the same behaviours - including bodies that are not meta syntax at any depth, bare and name-value attributes, flags in every form, receivers with nothing to forward - are executed by the real parsers with panics caught and reported. Unions / shapes and oversized integers are covered by the Shapes and Targets machines as they are added."),
  "C17": dict(engine="Receiver", design_ref="4.6, 5/C17", technique="TLA+ spec (Receiver.tla: did_you_mean / add_alts / add_sibling_alts transcribed; ReceiverProps.tla: eligible names per position) model-checked with TLC over a similarity table computed with strsim; replayed on real receivers, suggested names re-submitted; repeated with the feature off",
    text="TLC checks for every corpus root and every misspelt name at every level that the suggestion the machine attaches is among the best names eligible at that position per the declarative side (never skipped / flatten members, parent names only through direct flatten hand-off, only above threshold) and that no other leaf carries one; the real parser's suggestions are compared with that set, each suggested name is re-submitted and must not be unknown, and the run is repeated without the suggestions feature."),
+ "C18": dict(engine="Shapes", design_ref="4.7, 5/C18", technique="TLA+ spec (Shapes.tla: word parsing, ShapeSet, generated __validate_body) model-checked with TLC exhaustively against the documented table; compiled receiver family and the ShapeSet API replayed",
+   text="TLC checks all 2048 subsets of the shape words (and all FromVariant forms) against every body incl. unions and empty enums: verdict and error count of the transcribed validator equal the documented table; a compiled family of receivers (all 2048 in the thorough tier) is executed on every body and the stand-alone ShapeSet API is checked exhaustively."),
 }
 
 NOT_YET = "check not built yet (planned, see DESIGN.md section 5)"
